@@ -233,7 +233,7 @@ def execute(scn):
     twin = World(spec, scn["twin_sched"], twin_offset=1 << 20)
     stats, events, viols, sets = {}, [], [], {}
     roots = [o for n in spec["nodes"] for o in n["out"] if model.values[o].rq]
-    feats = list(scn["roles"]["features"]) if scn.get("roles") else []
+    feats = [f for f in scn["roles"]["features"] if f in model.values] if scn.get("roles") else []
     targets = [leaf["name"] for leaf in spec["leaves"] if leaf["rg"]] + feats
     tol = {n: np.zeros(model.values[n].shape) for n in world.leaf_names}
     outcome_sig = []
@@ -241,6 +241,9 @@ def execute(scn):
     for si, st in enumerate(scn["steps"]):
         if st["kind"] == "jd":
             call = st["call"]
+            from ..world import require_valid
+
+            require_valid(model, call)
             if call["api"] == "backward":
                 exp = expect_backward(model, call, eps)
                 upd = exp["updates"]
@@ -266,6 +269,10 @@ def execute(scn):
             if call["api"] == "mtl" and not call["retain"] and si == 0:
                 third_params = _one_stage_equivalent(spec, model, call, scn["roles"])
         else:
+            from ..world import InvalidScenario
+
+            if any((o not in model.values) or (not model.values[o].rq) or model.values[o].is_leaf for o in st["tensors"]):
+                raise InvalidScenario("torch step on a non-differentiable tensor")
             ow = _torch_step(world, st)
             ot = _torch_step(twin, st)
             third_params = None
